@@ -31,10 +31,12 @@ type countingCtx struct {
 	onFlip  func()
 }
 
-func newCountingCtx(flipAt int) *countingCtx { return &countingCtx{flipAt: flipAt, done: make(chan struct{})} }
+func newCountingCtx(flipAt int) *countingCtx {
+	return &countingCtx{flipAt: flipAt, done: make(chan struct{})}
+}
 
-func (c *countingCtx) Deadline() (time.Time, bool) { return time.Time{}, false }
-func (c *countingCtx) Done() <-chan struct{}       { return c.done }
+func (c *countingCtx) Deadline() (time.Time, bool)   { return time.Time{}, false }
+func (c *countingCtx) Done() <-chan struct{}         { return c.done }
 func (c *countingCtx) Value(interface{}) interface{} { return nil }
 func (c *countingCtx) Err() error {
 	c.calls++
